@@ -14,6 +14,7 @@ import (
 	"io"
 	mathrand "math/rand"
 	"os/exec"
+	"slices"
 	"strconv"
 	"strings"
 
@@ -159,9 +160,36 @@ func appendFlags(w io.Writer, forBuildHash bool) {
 	if flagControlFlow && forBuildHash {
 		io.WriteString(w, " -ctrlflow")
 	}
+	if flagLiterals && forBuildHash {
+		// With -literals, the declarations of variables set via -ldflags=-X are
+		// left alone when their package is compiled, so which variables are
+		// targeted affects the compiled output. cmd/go only re-links when
+		// -ldflags changes, so the names must be part of our build hashes.
+		for _, name := range linkerVariableNames() {
+			io.WriteString(w, " -X=")
+			io.WriteString(w, name)
+		}
+	}
 	if literals.TestObfuscator != "" && forBuildHash {
 		io.WriteString(w, literals.TestObfuscator)
 	}
+}
+
+// linkerVariableNames returns the sorted "pkgpath.name" targets of all -X flags
+// within the -ldflags build flag, without their values.
+func linkerVariableNames() []string {
+	ldflags, err := cmdgoQuotedSplit(flagValue(sharedCache.ForwardBuildFlags, "-ldflags"))
+	if err != nil {
+		return nil // reported by computeLinkerVariableStrings
+	}
+	var names []string
+	for val := range flagValues(ldflags, "-X") {
+		if name, _, found := strings.Cut(val, "="); found {
+			names = append(names, name)
+		}
+	}
+	slices.Sort(names)
+	return slices.Compact(names)
 }
 
 func buildidOf(path string) (string, error) {
